@@ -2167,9 +2167,18 @@ func opcodeCheckMultiSig(op *ParsedOpcode, t *thread) error {
 	// Get script starting from the most recent bscript.OpCODESEPARATOR.
 	script := t.subScript()
 
+	// As in opcodeCheckSig, signatures and code separators are removed from the
+	// script code only for signatures hashed with the legacy algorithm; a FORKID
+	// signature commits to the script code as it stands.
 	for _, sigInfo := range signatures {
-		script = script.removeOpcodeByData(sigInfo.signature)
-		script = script.removeOpcode(bscript.OpCODESEPARATOR)
+		var shf sighash.Flag
+		if len(sigInfo.signature) > 0 {
+			shf = sighash.Flag(sigInfo.signature[len(sigInfo.signature)-1])
+		}
+		if !t.hasFlag(scriptflag.EnableSighashForkID) || !shf.Has(sighash.ForkID) {
+			script = script.removeOpcodeByData(sigInfo.signature)
+			script = script.removeOpcode(bscript.OpCODESEPARATOR)
+		}
 	}
 
 	success := true
